@@ -125,7 +125,8 @@ def decode_string(enc, buf_bits):
         if d["t"] == "term":
             t = bytes.fromhex(d["hex"])
             u = len(t)
-            for i in range(0, len(raw) - u + 1, u):
+            step = 1 if enc["charset"] == "UTF-8" else u   # UTF-8 is self-synchronising: any byte offset
+            for i in range(0, len(raw) - u + 1, step):
                 if raw[i:i + u] == t:
                     return raw, raw[:i].decode(codec), None
             # a terminator present only at a non-aligned offset, or none at all
